@@ -27,11 +27,13 @@ pub fn evaluate_pair(case: &PairCase, run: &PairRun, focus: Focus) -> Outcome {
     check_c02(&tap, &av, &sides, &mut out);
     check_c04(&tap, &av, &sides, &mut out);
     check_c01(&run.events, &mut out);
+    check_c13_emitted(&tap, &sides, &mut out);
     wire_classes(&tap, &av, &mut out);
+    let two_send_waiters = case.reqs.iter().any(|r| r.then_second && (r.req.chunks.iter().any(|c| c.reserve) || r.req.watch_reset));
     let faulty = case.fault.is_some() || case.ops.iter().any(|o| matches!(o.cmd, ConnCmd::GracefulShutdown | ConnCmd::AbruptShutdown(_) | ConnCmd::DropConnection));
     if focus == Focus::Coop && !faulty {
         check_c01_complete(&run.events, &mut out);
-        check_c06(&StallInfo { unfinished: &run.unfinished, completed_when_repolled: run.completed_when_repolled, end: &run.end }, run.panic.is_some(), &mut out);
+        check_c06(&StallInfo { two_send_waiters, unfinished: &run.unfinished, completed_when_repolled: run.completed_when_repolled, end: &run.end }, run.panic.is_some(), &mut out);
     } else if let RunEnd::BusyLoop(t) = &run.end {
         out.fail("C08", "busy-loop", format!("C08/busy-loop/{}", strip_digits(t)), format!("task {} keeps waking itself without any progress", t));
     }
@@ -65,7 +67,7 @@ pub fn evaluate_pair(case: &PairCase, run: &PairRun, focus: Focus) -> Outcome {
             case.ops.iter().any(|o| o.side == Side::Server && matches!(o.cmd, ConnCmd::DropConnection)),
         ];
         if run.panic.is_none() {
-            check_c07(&C07Ctx { events: &run.events, unfinished: &run.unfinished, end: &run.end, completed_when_repolled: run.completed_when_repolled, dropped_conn, ending }, &mut out);
+            check_c07(&C07Ctx { events: &run.events, unfinished: &run.unfinished, end: &run.end, completed_when_repolled: run.completed_when_repolled, dropped_conn, ending, two_send_waiters }, &mut out);
         }
         out.label("connection-ending");
     }
